@@ -78,10 +78,18 @@ fn mr_excluded(b: &Url, t: &Url) -> Option<&'static str> {
     if td[1..].iter().chain(std::iter::once(&tf)).any(|s| is_dotty(s)) {
         return Some("K4f-dot-segment-in-target");
     }
-    if bd.iter().chain(td.iter()).chain([bf, tf].iter()).any(|s| is_wdl_seg(s)) {
+    let k = bd.iter().zip(td.iter()).take_while(|(x, y)| x == y).count();
+    // a drive-letter-shaped segment is never popped by '..' (last_slash_can_be_removed, any scheme): for a file
+    // base such a segment anywhere in either path is excluded, otherwise only among the base's directory
+    // segments behind the common prefix - the ones the reference's '..' steps have to pop
+    let wdl = if b.scheme() == "file" {
+        bd.iter().chain(td.iter()).chain([bf, tf].iter()).any(|s| is_wdl_seg(s))
+    } else {
+        bd[k..].iter().any(|s| is_wdl_seg(s))
+    };
+    if wdl {
         return Some("K4e-drive-letter-segment");
     }
-    let k = bd.iter().zip(td.iter()).take_while(|(x, y)| x == y).count();
     let ups = bd.len() - k;
     let rest: Vec<&str> = td[k..].to_vec();
     let part_empty = ups == 0 && rest.is_empty() && bf == tf;
